@@ -377,7 +377,11 @@ impl<
 
         let chunk = shared_state
             .response_sender
-            .allocate(shared_state.response_sender.chunk_layout(slice_len))?;
+            .allocate(shared_state.response_sender.chunk_layout(slice_len))
+            .inspect_err(|_| {
+                // the loan did not take place, give the reserved loan slot back
+                self.shared_loan_counter.fetch_sub(1, Ordering::Relaxed);
+            })?;
 
         let header_ptr: *mut service::header::request_response::ResponseHeader =
             chunk.header.cast();
